@@ -258,7 +258,7 @@ end
 def namesOK (m : Model) : Bool :=
   m.types.all (fun td => td.rels.all (fun rd => rd.name ≠ "" && refsOK rd.rewrite))
 
-/-- no intersection without operands (`GetChild()[0]` would panic; rejected by model validation) -/
+/-! no intersection without operands (`GetChild()[0]` would panic; rejected by model validation) -/
 mutual
 def intersOK : Rewrite → Bool
   | .this => true
